@@ -61,18 +61,39 @@ int _skinny_has_vec128(void)
     return detected;
 }
 
+#if SKINNY_VEC256_MATH && SKINNY_X86_CPUID && defined(__AVX2__)
+/* Read extended control register 0; only valid when CPUID reports OSXSAVE */
+static uint64_t skinny_xgetbv0(void)
+{
+    uint32_t lo = 0;
+    uint32_t hi = 0;
+    __asm__ __volatile__ (".byte 0x0f, 0x01, 0xd0"
+                          : "=a" (lo), "=d" (hi) : "c" (0));
+    return (((uint64_t)hi) << 32) | lo;
+}
+#endif
+
 int _skinny_has_vec256(void)
 {
     int detected = 0;
 #if SKINNY_VEC256_MATH
 #if SKINNY_X86_CPUID && defined(__AVX2__)
-    /* 256-bit SIMD vectors are available on x86 if we have AVX2 */
+    /* 256-bit SIMD vectors are available on x86 if the CPU has AVX2 and
+       the operating system preserves the YMM registers.  AVX2 is reported
+       in sub-leaf 0 of CPUID leaf 7, which must be selected explicitly */
     uint32_t eax = 0;
     uint32_t ebx = 0;
     uint32_t ecx = 0;
     uint32_t edx = 0;
-    __cpuid(7, eax, ebx, ecx, edx);
-    detected = (ebx & (1 << 5)) != 0;
+    __cpuid(0, eax, ebx, ecx, edx);
+    if (eax >= 7) {
+        __cpuid(1, eax, ebx, ecx, edx);
+        if ((ecx & (1 << 27)) != 0 && (ecx & (1 << 28)) != 0 &&
+                (skinny_xgetbv0() & 0x06) == 0x06) {
+            __cpuid_count(7, 0, eax, ebx, ecx, edx);
+            detected = (ebx & (1 << 5)) != 0;
+        }
+    }
 #endif
 #endif
     return detected;
